@@ -12,6 +12,7 @@ EXPLANATION = (
     "(R-C12-dollar) each matches() rejects a topic whose first character is '$' before any level comparison. "
     "(R-C12-levels) in each matches(): `false` for an exhausted topic only behind a test of the filter level against \"#\" (a/# matches a); `true` after the last filter level only behind a poll of the topic iterator; "
     "every loop iteration consumes one topic level and continues only via `level == \"+\"` or a comparison of the two levels. "
+    "(R-C12-filter) each valid_filter() tests both the non-last levels and the last level for '+' and for '#', and a '#' in a non-last level leads only to false. "
     "NOT decided: conformance of matching with the MQTT rules for all string pairs; agreement of the differently written rumqttd valid_filter with the client copies.")
 
 ASSUMPTIONS = [
@@ -89,6 +90,8 @@ def run(ctx):
     for label, body, crate in copies["matches"]:
         check_dollar(ctx, label, body)
         ctx.guarded("R-C12-levels", check_levels, ctx, ctx.progs[crate], label, body)
+    for label, body, crate in copies["valid_filter"]:
+        ctx.guarded("R-C12-filter", check_filter_levels, ctx, ctx.progs[crate], label, body)
 
 
 def check_dollar(ctx, label, body):
@@ -297,3 +300,46 @@ def check_levels(ctx, prog, label, body):
         ctx.violation(rule, label, "level not compared", "matches(): the loop can continue past a filter level that is neither \"+\" nor compared with the topic level", site=body.fn_loc())
     else:
         ctx.ok(rule, label, "L4: a loop iteration continues only via `level == \"+\"` or a comparison of filter level and topic level", site=body.fn_loc())
+
+
+# ------------------------------------------------------------------------------------------
+# R-C12-filter: wildcard placement tests of valid_filter()
+
+def check_filter_levels(ctx, prog, label, body):
+    """Necessary structure of filter validation in one copy of valid_filter(): both kinds of level —
+    the non-last levels (tested inside the loop over levels) and the last level (tested outside it) —
+    are tested for '+' AND for '#'; a '#' found in a non-last level can only lead to `false`."""
+    rule = "R-C12-filter"
+    live = reachable(body, (0,))
+    # blocks on a cycle = the per-level loop
+    in_loop = set()
+    for bi in live:
+        if bi in reachable_after(body, [bi]):
+            in_loop.add(bi)
+    tests = {"entry": {}, "last": {}}
+    for bb, t in body.calls():
+        if bb not in live or body.is_cleanup(bb) or not re.search(r"str>::contains(::<.*>)?$|::contains$", callee_path(t)) or len(t["args"]) != 2:
+            continue
+        k = op_const(t["args"][1])
+        if k is None or k.get("v") not in (35, 43):
+            continue
+        cls = "entry" if bb in in_loop else "last"
+        tests[cls].setdefault("#" if k["v"] == 35 else "+", []).append((bb, t))
+    trues = [bi for bi in live for st in body.blocks[bi]["s"]
+             if "lhs" in st and st["lhs"]["l"] == 0 and not st["lhs"].get("p") and st["rv"]["k"] == "use" and (op_const(st["rv"]["a"]) or {}).get("v") == 1]
+    for cls, what in (("entry", "non-last levels"), ("last", "the last level")):
+        missing = [c for c in ("+", "#") if c not in tests[cls]]
+        if missing:
+            ctx.violation(rule, label, "%s not tested for %s" % (what, "/".join(missing)),
+                          "valid_filter() never tests %s for %s: filters with a misplaced wildcard (e.g. `sport+/tennis`) are accepted" % (what, " and ".join("'%s'" % c for c in missing)), site=body.fn_loc())
+        else:
+            ctx.ok(rule, label, "%s are tested for '+' and '#'" % what, site=body.fn_loc())
+    for bb, t in tests["entry"].get("#", []):
+        sw = t.get("t")
+        if sw is None or body.blocks[sw]["t"]["k"] != "switch":
+            continue
+        true_t = body.blocks[sw]["t"]["otherwise"]
+        if reachable(body, (true_t,)) & set(trues):
+            ctx.violation(rule, label, "'#' in a non-last level accepted", "valid_filter(): after finding '#' in a non-last level a path still returns true", site=body.loc(t.get("sp")))
+        else:
+            ctx.ok(rule, label, "'#' in a non-last level leads only to `false`", site=body.loc(t.get("sp")))
